@@ -681,21 +681,21 @@ theorem always_wait_serial (req : List Tid) (c : Choice) (s : IS) (h : K s) (hks
     have hjf : j.tid ∈ s.rs.futs := hks.2 j (by rw [hq]; exact List.mem_cons_self)
     have hnd : j.tid ∉ rest.map Job.tid ∧ (rest.map Job.tid).Nodup := by
       have := hks.1; rw [hq] at this; exact List.nodup_cons.mp this
-    -- the first three primitives
-    obtain ⟨s3, hs3⟩ : ∃ s3, s3 = runPrims cfg p [Prim.popDeque, Prim.serialRun, Prim.serialSave] s := ⟨_, rfl⟩
-    have q3 : ∀ q ∈ [Prim.popDeque, Prim.serialRun, Prim.serialSave], q.quiet = true := by
+    -- the first four primitives
+    obtain ⟨s3, hs3⟩ : ∃ s3, s3 = runPrims cfg p [Prim.popDeque, Prim.serialRun, Prim.serialSaveBegin, Prim.serialSaveEnd] s := ⟨_, rfl⟩
+    have q3 : ∀ q ∈ [Prim.popDeque, Prim.serialRun, Prim.serialSaveBegin, Prim.serialSaveEnd], q.quiet = true := by
       intro q hq'; simp only [List.mem_cons, List.not_mem_nil, or_false] at hq'
-      rcases hq' with rfl | rfl | rfl <;> rfl
+      rcases hq' with rfl | rfl | rfl | rfl <;> rfl
     obtain ⟨c1, c2, c3⟩ := quiet_run (cfg := cfg) (p := p) _ s q3
     rw [← hs3] at c1 c2 c3
     have k3 : KRun s3 := KRun_of_core ⟨h.1, hrun⟩ c1 c2 c3
     have hq3 : s3.rs.queued = rest := by
       rw [hs3]
       simp only [runPrims_cons, runPrims_nil]
-      rw [applyPrim_queued _ _ rfl, applyPrim_queued _ _ rfl]
+      rw [applyPrim_queued _ _ rfl, applyPrim_queued _ _ rfl, applyPrim_queued _ _ rfl]
       simp only [applyPrim_running _ _ hrun, stepPrim, hq]
-    -- KS along the first three
-    have ks_pre : Always cfg p KS [Prim.popDeque, Prim.serialRun, Prim.serialSave] s := by
+    -- KS along the first four
+    have ks_pre : Always cfg p KS [Prim.popDeque, Prim.serialRun, Prim.serialSaveBegin, Prim.serialSaveEnd] s := by
       have e1 : KS (applyPrim cfg p Prim.popDeque s) := by
         have eq1 : (applyPrim cfg p Prim.popDeque s).rs.queued = rest := by
           simp only [applyPrim_running _ _ hrun, stepPrim, hq]
@@ -704,9 +704,9 @@ theorem always_wait_serial (req : List Tid) (c : Choice) (s : IS) (h : K s) (hks
         rw [eq1, ef1]
         intro j' hj'
         exact hks.2 j' (by rw [hq]; exact List.mem_cons_of_mem _ hj')
-      have := KS_keep (cfg := cfg) (p := p) [Prim.serialRun, Prim.serialSave] _
+      have := KS_keep (cfg := cfg) (p := p) [Prim.serialRun, Prim.serialSaveBegin, Prim.serialSaveEnd] _
         (by intro q hq'; simp only [List.mem_cons, List.not_mem_nil, or_false] at hq'
-            rcases hq' with rfl | rfl <;> exact ⟨rfl, rfl⟩) e1
+            rcases hq' with rfl | rfl | rfl <;> exact ⟨rfl, rfl⟩) e1
       exact ⟨hks, this.1⟩
     -- the pop
     generalize ho : runOutcome p s.rs.ts s.rs.store { j with snap := some s.rs.results } = o
@@ -724,9 +724,9 @@ theorem always_wait_serial (req : List Tid) (c : Choice) (s : IS) (h : K s) (hks
     rw [p4, c1] at hy
     obtain ⟨y1, y2, y3, y4⟩ := hy
     have hky := KS_keep (cfg := cfg) (p := p) _ _ (yieldPrims_untouched (cfg := cfg) req s.rs.ts j.tid o) ks4
-    have hsplit : [Prim.popDeque, Prim.serialRun, Prim.serialSave] ++ [Prim.popFuture j.tid (some o)]
+    have hsplit : [Prim.popDeque, Prim.serialRun, Prim.serialSaveBegin, Prim.serialSaveEnd] ++ [Prim.popFuture j.tid (some o)]
         ++ yieldPrims cfg req s.rs.ts j.tid o =
-        [Prim.popDeque, Prim.serialRun, Prim.serialSave] ++
+        [Prim.popDeque, Prim.serialRun, Prim.serialSaveBegin, Prim.serialSaveEnd] ++
           (Prim.popFuture j.tid (some o) :: yieldPrims cfg req s.rs.ts j.tid o) := by simp
     rw [hsplit, always_append, runPrims_append, ← hs3, always_and, always_and]
     refine ⟨⟨⟨always_K_quiet _ s q3 h, ks_pre⟩, ⟨k3.k, y1⟩, ⟨?_, hky.1⟩⟩, ?_⟩
